@@ -265,6 +265,9 @@ impl<'a, W: Write + 'a> ser::Serializer for &'a mut Serializer<W> {
                 }
                 let buf = v.to_be_bytes();
                 self.writer.write_all(&buf)?;
+                // The marker is for this value only: the value of a map entry is written by
+                // the same serializer right after its key
+                self.non_native_type = None;
             }
             _ => unreachable!(),
         }
